@@ -1,0 +1,171 @@
+//go:build verif
+
+/*
+Verification hook (build tag `verif`): lets an out-of-tree harness construct the
+real watchers, deliver events through the handlers' own predicates and take the
+batches a reconciliation would take. Not compiled in regular builds.
+*/
+
+package reconciler
+
+import (
+	"context"
+	"reflect"
+	"sync"
+	"time"
+
+	"sigs.k8s.io/controller-runtime/pkg/client"
+	"sigs.k8s.io/controller-runtime/pkg/event"
+
+	"github.com/jcmoraisjr/haproxy-ingress/pkg/controller/config"
+	"github.com/jcmoraisjr/haproxy-ingress/pkg/controller/services"
+	"github.com/jcmoraisjr/haproxy-ingress/pkg/converters/types"
+)
+
+// VerifWatchers wraps the real watchers and a recording queue.
+type VerifWatchers struct {
+	w        *watchers
+	handlers []*hdlr
+	q        *verifQueue
+}
+
+// VerifNewWatchers ...
+func VerifNewWatchers(ctx context.Context, cfg *config.Config, val services.IsValidResource) *VerifWatchers {
+	w := createWatchers(ctx, cfg, val)
+	return &VerifWatchers{
+		w:        w,
+		handlers: w.getHandlers(),
+		q:        &verifQueue{},
+	}
+}
+
+// Dispatch delivers one informer event for obj's type. ev is one of create,
+// update, delete, generic. The handler's own predicates decide if the event is
+// accepted, which is returned.
+func (v *VerifWatchers) Dispatch(ev string, oldObj, newObj client.Object) bool {
+	ctx := context.Background()
+	accepted := false
+	for _, h := range v.handlers {
+		if reflect.TypeOf(h.typ) != reflect.TypeOf(newObj) {
+			continue
+		}
+		pass := true
+		switch ev {
+		case "create":
+			e := event.TypedCreateEvent[client.Object]{Object: newObj}
+			for _, p := range h.pr {
+				if !p.Create(e) {
+					pass = false
+					break
+				}
+			}
+			if pass {
+				h.Create(ctx, e, v.q)
+			}
+		case "update":
+			e := event.TypedUpdateEvent[client.Object]{ObjectOld: oldObj, ObjectNew: newObj}
+			for _, p := range h.pr {
+				if !p.Update(e) {
+					pass = false
+					break
+				}
+			}
+			if pass {
+				h.Update(ctx, e, v.q)
+			}
+		case "delete":
+			e := event.TypedDeleteEvent[client.Object]{Object: newObj}
+			for _, p := range h.pr {
+				if !p.Delete(e) {
+					pass = false
+					break
+				}
+			}
+			if pass {
+				h.Delete(ctx, e, v.q)
+			}
+		case "generic":
+			e := event.TypedGenericEvent[client.Object]{Object: newObj}
+			for _, p := range h.pr {
+				if !p.Generic(e) {
+					pass = false
+					break
+				}
+			}
+			if pass {
+				h.Generic(ctx, e, v.q)
+			}
+		default:
+			panic("unknown event " + ev)
+		}
+		accepted = accepted || pass
+	}
+	return accepted
+}
+
+// GetChangedObjects takes the current batch, as Reconcile does.
+func (v *VerifWatchers) GetChangedObjects() *types.ChangedObjects {
+	return v.w.getChangedObjects()
+}
+
+// PeekNeedFullSync reports the NeedFullSync flag of the batch being composed.
+func (v *VerifWatchers) PeekNeedFullSync() bool {
+	v.w.mu.Lock()
+	defer v.w.mu.Unlock()
+	return v.w.ch.NeedFullSync
+}
+
+// TakePending returns, in first-add order and de-duplicated as the work queue
+// does, the fullsync flag of every reconciliation request enqueued since the
+// last call.
+func (v *VerifWatchers) TakePending() []bool {
+	return v.q.take()
+}
+
+// Notifications returns the total number of notify calls seen so far.
+func (v *VerifWatchers) Notifications() int {
+	v.q.mu.Lock()
+	defer v.q.mu.Unlock()
+	return v.q.total
+}
+
+type verifQueue struct {
+	mu      sync.Mutex
+	pending []rparam
+	total   int
+}
+
+func (q *verifQueue) add(item rparam) {
+	q.mu.Lock()
+	defer q.mu.Unlock()
+	q.total++
+	for _, p := range q.pending {
+		if p == item {
+			return
+		}
+	}
+	q.pending = append(q.pending, item)
+}
+
+func (q *verifQueue) take() []bool {
+	q.mu.Lock()
+	defer q.mu.Unlock()
+	out := make([]bool, len(q.pending))
+	for i, p := range q.pending {
+		out[i] = p.fullsync
+	}
+	q.pending = nil
+	return out
+}
+
+func (q *verifQueue) Add(item rparam)                       { q.add(item) }
+func (q *verifQueue) AddAfter(item rparam, _ time.Duration) { q.add(item) }
+func (q *verifQueue) AddRateLimited(item rparam)            { q.add(item) }
+func (q *verifQueue) Forget(rparam)                         {}
+func (q *verifQueue) NumRequeues(rparam) int                { return 0 }
+func (q *verifQueue) Len() int                              { q.mu.Lock(); defer q.mu.Unlock(); return len(q.pending) }
+func (q *verifQueue) Get() (rparam, bool)                   { return rparam{}, true }
+func (q *verifQueue) Done(rparam)                           {}
+func (q *verifQueue) ShutDown()                             {}
+func (q *verifQueue) ShutDownWithDrain()                    {}
+func (q *verifQueue) ShuttingDown() bool                    { return false }
